@@ -11,6 +11,7 @@ CONSTANTS
   Tmo = {0, 2}
   Horizon = 0
   AllowFaults = TRUE
+  AllowCancel = FALSE
   AbstractTime = TRUE
   LeakSearchIdOnDone = FALSE
   AbandonKeepsTargetId = FALSE
